@@ -138,6 +138,12 @@ def programs(tier):
             progs.append((regs, [("x", (q,), ()), ("h", ((q + 1) % 3,), ())]))
         for g in [("cx", (0, 2)), ("cx", (2, 1)), ("cz", (1, 2)), ("cx", (0, 1)), ("swap", (0, 2))]:
             progs.append((regs, layer(0) + [(g[0], g[1], ())] + layer(1)))
+    # three entangling gates on adjacent pairs in every order and orientation: with post-selection allowed the converter mixes post-selected and
+    # heralded versions of the same gate within one circuit (which version each occurrence needs depends on the gates after it)
+    adj = [("cx", (0, 1)), ("cx", (1, 0)), ("cx", (1, 2)), ("cx", (2, 1)), ("cz", (0, 1)), ("cz", (1, 2))]
+    for k, (g1, g2, g3) in enumerate(itertools.product(adj, repeat=3)):
+        body = [(g1[0], g1[1], ())] + [(g2[0], g2[1], ())] + ([("h", (1,), ())] if k % 2 else layer(2)) + [(g3[0], g3[1], ())]
+        progs.append((n, layer(0) + body + layer(1), (True,) if (tier == "quick" and k % 9) else (False, True)))
     if tier == "thorough":
         for g1, g2, g3 in itertools.islice(itertools.product(two, two + three, two), 0, None, 37):
             progs.append((n, layer(0) + [(g1[0], g1[1], ())] + layer(2) + [(g2[0], g2[1], ())] + [(g3[0], g3[1], ())] + layer(1)))
@@ -152,10 +158,11 @@ def unit(tier="quick", seed=0, shard=0, nshards=1):
     n = 0
     fails, refused = [], 0
     sample = None
-    for k, (nq, prog) in enumerate(programs(tier)):
+    for k, entry in enumerate(programs(tier)):
+        nq, prog = entry[0], entry[1]
         if k % nshards != shard:
             continue
-        for allow_ps in (False, True):
+        for allow_ps in (entry[2] if len(entry) > 2 else (False, True)):
             n += 1
             label = plabel(nq, prog, allow_ps)
             sample = sample or label
